@@ -11,6 +11,7 @@ let () =
     | "format" -> H_format.format_case
     | "vector" -> H_vector.vector_case
     | "values" -> H_values.values_case
+    | "params" -> H_params.params_case
     | _ -> failwith ("unknown model " ^ sub) in
   (try
     while true do
